@@ -234,6 +234,17 @@ Qed.
 
 Definition big_v4 (n : nat) : bytes := [69%N; 0%N] ++ be 2 (N.of_nat n) ++ repeat 0%N (n - 4).
 
+Definition cap_pkt : bytes := big_v4 4101.
+
 Lemma capacity_witness :
-  valid_pkt (big_v4 4101) = true /\ ingest (frames_of 57 1 5 [big_v4 4101]) = [].
-Proof. vm_compute. split; reflexivity. Qed.
+  valid_pkt cap_pkt = true /\ ingest (frames_of 57 1 5 [cap_pkt]) = [] /\
+  (N.of_nat (length (frames_of 57 1 5 [cap_pkt])) <=? two64)%N = true.
+Proof. vm_compute. repeat split. Qed.
+
+(** the full loss-free statement fails on that packet *)
+Lemma capacity_refutes :
+  ingest (frames_of 57 1 5 [cap_pkt]) <> filter valid_pkt [cap_pkt].
+Proof.
+  destruct capacity_witness as (V & E & _). rewrite E.
+  unfold filter. rewrite V. discriminate.
+Qed.
